@@ -900,6 +900,11 @@ func init() {
 					vBFS(c, &vReaddSys{c: c, kind: cfg.Kind, cfg: cfg, cfgS: "readd " + cfg.String()}, dr)
 				}})
 			}
+			// observation gaps (zz_verif_obsgap.go) on the hybrid index
+			sh = append(sh, vShard{Name: "obsgap/hybrid", Run: func(c *vCtx) {
+				cfg := vHybCfgs()[0]
+				vBFS(c, &vObsGapSys{inner: &vHybSys{c: c, cfg: cfg, cfgS: cfg.String() + " obsgap"}}, 4)
+			}})
 			// the same spaces with every id shifted to around 2^16 and 2^31 (auto ids too)
 			for _, base := range vIDBases[:3] {
 				base := base
@@ -928,6 +933,9 @@ func init() {
 			if strings.HasPrefix(v.Config, "readd ") {
 				cfg := vParseVecCfg(strings.TrimPrefix(v.Config, "readd "))
 				vReplayHist(&vReaddSys{c: c, kind: cfg.Kind, cfg: cfg, cfgS: v.Config}, v.History)
+			} else if strings.HasSuffix(v.Config, " obsgap") {
+				cfg := vParseHybCfg(v.Config)
+				vReplayHist(&vObsGapSys{inner: &vHybSys{c: c, cfg: cfg, cfgS: v.Config}}, v.History)
 			} else {
 				cfg := vParseHybCfg(v.Config)
 				vReplayHist(&vHybSys{c: c, cfg: cfg, cfgS: v.Config}, v.History)
